@@ -316,7 +316,9 @@ def run_case(case):
             elif op in ('replace-summary', 'replace-distance'):
                 saved_ok = False
                 if op == 'replace-summary':
-                    c = arg % w
+                    # prefer a summary whose store the pool holds (any choice is a valid history; this one makes the removal matter)
+                    held_s = [i_ for i_ in range(w) if 's%d' % i_ in pool.stores]
+                    c = held_s[arg % len(held_s)] if held_s else arg % w
                     variant = dict(variant, factors=[f * (2.0 if i == c else 1.0) for i, f in enumerate(variant['factors'])])
                     affected = ['s%d' % c, 'd']
                 else:
